@@ -102,6 +102,14 @@ def check_C04(tier, seed):
     c = syscamp.Campaign("C04", tier, seed, own_ids=["C04"])
     try:
         c.build(dist=True)
+        # the two-level GVT algorithm of gvt.c itself, exhaustively (abstract workload)
+        c.mc_phase("GvtRound.tla", "GvtRound_q.cfg", "2 threads, 3 messages, 1 round: every interleaving of thread phases A-D (run twice), node phases, "
+                   "round initiation/joining with extraction and sends; safety + round completion under fairness", workers=8, timeout=900)
+        c.mc_phase("GvtRound.tla", "GvtRound_6.cfg", "2 threads, 6 messages with equal timestamps, 1 round (the budget needed to expose an accumulator that "
+                   "misses extractions)", workers=16, timeout=900, heap="8g")
+        if tier == "thorough":
+            c.mc_phase("GvtRound.tla", "GvtRound_t.cfg", "2 threads, 4 messages, timestamps 1..3, 2 consecutive rounds", workers=16, timeout=1800, heap="8g")
+            c.mc_phase("GvtRound.tla", "GvtRound_3.cfg", "3 threads, 3 messages, 1 round", workers=16, timeout=1800, heap="8g")
         c.run(_models(tier, seed, ["mixed", "fanout", "zerodelay", "ties"], 4, 24, "small", "medium"), 5 if tier == "quick" else 12, emphasis=em)
         # rollback cascades that outlast a GVT round: one anti-message per hop walking through the LPs of two threads
         cem = lambda r: {"period": 0, "skew": r.choice([0, 0, 100, 300]), "policy": r.choice([0, 0, 2]), "ckpt": r.choice([1, 2, 0])}
